@@ -12,7 +12,11 @@ import (
 )
 
 func main() {
-	c := core.NewCtx("dbg", "quick", "/repo", "/tmp")
+	repo := "/repo"
+	if len(os.Args) > 3 {
+		repo = os.Args[3]
+	}
+	c := core.NewCtx("dbg", "quick", repo, "/tmp")
 	if err := c.Load(packages.LoadSyntax); err != nil {
 		fmt.Println(err)
 		os.Exit(1)
